@@ -481,6 +481,9 @@ def o_C06(api, args, c):
         return None
     if "fault" in c:
         return "fault=%s while encoding/decoding" % c["fault"]
+    if c.get("b2b") == "diff":
+        return ("the encoding of the second array differs when the call directly follows an encode of another array "
+                "of the same length (result depends on the previous call's dead stack frame)")
     n = _count(api, args)
     e = _forced(api, args)
     if n < 1:
